@@ -2280,23 +2280,23 @@ class Fn(
         found_unselected = False
 
         for addr, value in x.items():
-            is_selected, subselection = selection.match(addr)
-            if is_selected:
-                if isinstance(value, dict) and subselection is not None:
-                    # Recursively filter nested choices
-                    selected_sub, unselected_sub = self.filter(value, subselection)
-                    if selected_sub is not None:
-                        selected[addr] = selected_sub
-                        found_selected = True
-                    if unselected_sub is not None:
-                        unselected[addr] = unselected_sub
-                        found_unselected = True
-                else:
-                    # Include the entire value in selected
-                    selected[addr] = value
+            # Thread the remaining selection down the address path, as
+            # regenerate does; the decision is taken at the leaves.
+            _, subselection = selection.match(addr)
+            if isinstance(value, dict):
+                # Recursively filter nested choices
+                selected_sub, unselected_sub = self.filter(value, subselection)
+                if selected_sub is not None:
+                    selected[addr] = selected_sub
                     found_selected = True
+                if unselected_sub is not None:
+                    unselected[addr] = unselected_sub
+                    found_unselected = True
+            elif () in subselection:
+                # Leaf selected (same decision as Distribution.regenerate)
+                selected[addr] = value
+                found_selected = True
             else:
-                # Include the entire value in unselected
                 unselected[addr] = value
                 found_unselected = True
 
